@@ -97,10 +97,10 @@ Seq3Of(s, maxat) ==
   {Graph(s, "rp", TRUE, FALSE, FALSE, <<f, h, Ld(P)>>, FALSE) : f \in Fails(s, maxat), h \in Fails(s, maxat) \cup {Ld(<<<<"new">>>>)}, P \in ps}
 C15Seq3(S, maxat) == UNION {Seq3Of(s, maxat) : s \in {x \in S : HasOpt(x)}}
 \* ---- C13: graphs without opt-in objects under both flags; opt-in graphs with remote=False and under the standard operations ----
-C13Graphs(Splain, Sopt) ==
-  {Graph(s, "rp", rm, FALSE, FALSE, <<Ld(<<>>)>>, FALSE) : s \in Splain, rm \in BOOLEAN}
-  \cup {Graph(s, "rp", FALSE, mk, sn, <<Ld(<<>>)>>, FALSE) : s \in {x \in Sopt : HasOpt(x)}, mk \in BOOLEAN, sn \in BOOLEAN}
-  \cup {Graph(s, o, FALSE, mk, sn, <<Ld(<<>>)>>, FALSE) : s \in {x \in Sopt : HasOpt(x)}, o \in {"pickle", "deepcopy", "mp"}, mk \in BOOLEAN, sn \in {TRUE}}
+C13Graphs(Splain, Sopt) == UNION {
+  {Graph(s, "rp", rm, FALSE, FALSE, <<Ld(<<>>)>>, FALSE) : s \in Splain, rm \in BOOLEAN},
+  {Graph(s, "rp", FALSE, mk, sn, <<Ld(<<>>)>>, FALSE) : s \in {x \in Sopt : HasOpt(x)}, mk \in BOOLEAN, sn \in BOOLEAN},
+  {Graph(s, o, FALSE, mk, sn, <<Ld(<<>>)>>, FALSE) : s \in {x \in Sopt : HasOpt(x)}, o \in {"pickle", "deepcopy", "mp"}, mk \in BOOLEAN, sn \in {TRUE}}}
 
 All3 == {"opt", "plain", "cont"}
 \* (TLC evaluates every constant definition without parameters at start-up: the sets take a dummy argument)
@@ -115,13 +115,15 @@ S_opt2(u)    == Shapes(1..2, All3, 1, TRUE)
 S_five(u)    == Shapes({5}, {"opt", "cont"}, 0, FALSE)              \* 5-node trees of opt-in objects and containers
 
 ScnSet(name) ==
-  CASE name = "C13_quick"    -> Cls(3) \cup Leaf \cup C13Graphs(S_plain3(0), S_small(0))
-    [] name = "C13_thorough" -> Cls(4) \cup Leaf \cup C13Graphs(S_plain4(0), S_small(0) \cup S_fourx(0))
-    [] name = "C14_quick"    -> C14Of(S_small(0) \cup S_four(0), BOOLEAN)
-    [] name = "C14_thorough" -> C14Of(S_three2(0) \cup S_fourf(0) \cup S_five(0), BOOLEAN)
-    [] name = "C15_quick"    -> C15P(S_small(0), TRUE) \cup C15P(S_four(0), FALSE) \cup C15Seq(S_opt2(0), 2)
-    [] name = "C15_thorough" -> C15P(S_three2(0) \cup S_fourx(0), TRUE) \cup C15Seq(S_small(0), 4) \cup C15Seq3(S_opt2(0), 2)
+  CASE name = "C13_quick"    -> UNION {Cls(3), Leaf, C13Graphs(S_plain3(0), S_small(0))}
+    [] name = "C13_thorough" -> UNION {Cls(4), Leaf, C13Graphs(S_plain4(0), UNION {S_small(0), S_fourx(0)})}
+    [] name = "C14_quick"    -> C14Of(UNION {S_small(0), S_four(0)}, BOOLEAN)
+    [] name = "C14_thorough" -> C14Of(UNION {S_three2(0), S_fourf(0), S_five(0)}, BOOLEAN)
+    [] name = "C15_quick"    -> UNION {C15P(S_small(0), TRUE), C15P(S_four(0), FALSE), C15Seq(S_opt2(0), 2)}
+    [] name = "C15_thorough" -> UNION {C15P(UNION {S_three2(0), S_fourx(0)}, TRUE), C15Seq(S_small(0), 4), C15Seq3(S_opt2(0), 2)}
     [] name = "tiny"         -> C14Of(S_opt2(0), {FALSE})
-\* RP_SET names the set; "env" = hand-picked scenarios read from a file (replays, smoke tests)
-Scns_sel == IF IOEnv.RP_SET = "env" THEN Rng(JsonDeserialize(IOEnv.SCN_FILE)) ELSE ScnSet(IOEnv.RP_SET)
+    [] name = "env"          -> Rng(JsonDeserialize(IOEnv.SCN_FILE))     \* hand-picked scenarios (replays, smoke tests)
+\* the scenario set is named by the environment variable RP_SET and enumerated once, by the initial predicate
+MCInit == InitWith(ScnSet(IOEnv.RP_SET))
+MCSpec == MCInit /\ [][Next]_vars /\ WF_vars(Next)
 =============================================================================
